@@ -205,7 +205,7 @@ func C19(c *Ctx, r *report.Run) error {
 	allSpecs, cases := univ.RuleSpecs(c.Thorough)
 	var specs []*spec.Spec
 	for _, s := range allSpecs {
-		if s.Name != "rules_bytes" { // bytes length rules are not in the property's rule list; C06 judges what is published for them
+		if s.Name != "rules_bytes" && s.Name != "rules_affix" { // bytes length and string affix rules are not in the property's rule list; C06 judges what is published for them
 			specs = append(specs, s)
 		}
 	}
